@@ -21,6 +21,18 @@ impl Clone for FnArg {
     fn clone(&self) -> (r: Self) ensures r == *self { unimplemented!() }
 }
 
+// std::borrow::Cow<'_, T> (arguments of Queryable::extension_custom).  vstd declares the type; the two accessors the
+// code uses (`as_ref`, auto-deref) are assumed to return the borrowed or owned value (std's documented meaning).
+pub uninterp spec fn cow_ref<'a, 'b, T: ?Sized + ToOwned>(c: &'b Cow<'a, T>) -> &'b T;
+pub open spec fn cow_val<'a, T: Clone>(c: Cow<'a, T>) -> T { match c { Cow::Borrowed(b) => *b, Cow::Owned(o) => o } }
+pub open spec fn cow_vals<'a, T: Clone>(cs: Seq<Cow<'a, T>>) -> Seq<T> { cs.map_values(|c: Cow<'a, T>| cow_val(c)) }
+pub broadcast axiom fn axiom_cow_ref<'a, 'b, T: Clone>(c: &'b Cow<'a, T>)
+    ensures *(#[trigger] cow_ref(c)) == cow_val(*c);
+pub assume_specification<'a, 'b, T: ?Sized + ToOwned> [<std::borrow::Cow<'a, T> as std::convert::AsRef<T>>::as_ref] (c: &'b std::borrow::Cow<'a, T>) -> (r: &'b T)
+    ensures r == cow_ref(c);
+pub assume_specification<'a, 'b, T: ?Sized + ToOwned> [<std::borrow::Cow<'a, T> as std::ops::Deref>::deref] (c: &'b std::borrow::Cow<'a, T>) -> (r: &'b T)
+    ensures r == cow_ref(c);
+
 // R1: X.into_iter().chain(Y).collect()
 #[verifier::external_body]
 pub fn vf_chain_collect<A>(x: Vec<A>, y: Vec<A>) -> (r: Vec<A>)
